@@ -18,7 +18,7 @@ CLAIMED = {
    note="Not decided: the full decision procedure as a postcondition (every check has a satisfied query in its scope <=> no check error): it needs a specification-level definition of 'query satisfied in scope', i.e. the Datalog semantics of C05, which is not available as a contract. Error message contents are not specified.",
    technique=T, ref="4/C04"),
  "C05": dict(
-   text="Proof (partial). Leaves with full functional contracts: Term.Equal (all 7 implementations against one interface contract), Predicate.Equal/Match/Clone, FactSet.Insert/InsertAll (set semantics, no-growth => subset), advanceIndexes (lexicographic successor with carry), MatchedVariables Insert/Complete/Clone, World AddFact/AddRule/ResetRules/Clone. Join soundness: the rule-application goroutine is proved to send only bindings that unify every variable position of every body predicate with the fact chosen for it (first occurrence binds, later occurrences passed Term.Equal), with matching arity and name. Fixpoint step: a nil verdict is sent only when an iteration added no fact. The enumeration's stop reasons are under contract per return statement (no fact at all; odometer exhausted with the first index at the last fact; after an error was sent; no predicate).",
+   text="Proof (partial). Leaves with full functional contracts: Term.Equal (all 7 implementations against one interface contract), Predicate.Equal/Match/Clone, FactSet.Insert/InsertAll (set semantics, no-growth => subset), advanceIndexes (lexicographic successor with carry), MatchedVariables Insert/Complete/Clone, World AddFact/AddRule/ResetRules/Clone. Join soundness: the rule-application goroutine is proved to send only bindings that unify every variable position of every body predicate with the fact chosen for it (first occurrence binds, later occurrences passed Term.Equal), with matching arity and name. Fixpoint step: a nil verdict is sent only when an iteration added no fact. The enumeration's stop reasons are under contract per return statement (no fact at all; odometer exhausted with the first index at the last fact; after an error was sent; no predicate). Derivation soundness at the level of heads: Rule.Apply only adds instances of the rule's head (same name and arity, constants of the head in place) and keeps what the target set held; QueryRule's answers are instances of the query's head; FactSet.InsertAll only adds elements of its argument; World.Run is proved to keep every initial fact in place and to add only instances of the head of some rule of the world (only_derived_facts_are_added) unless it returns the timeout error.",
    note="Rule.Apply, combine$1, World.Run/Run$1 and QueryRule are also under contract for well-formedness and frames (the source fact set is never written; new facts only grow). Not decided: completeness of the enumeration between start and exhaustion (every matching combination is produced - a statement over the whole sequence of channel values, which the producer/consumer rule does not carry; the thorough tier cross-checks it on the real code against a brute-force reference over a small corpus), that expressions filter exactly (Evaluate's full semantics), and minimality of the model.",
    technique=T, ref="4/C05"),
  "C06": dict(
@@ -47,10 +47,10 @@ CLAIMED = {
    technique=T, ref="4/C11"),
  "C13": dict(
    text="Proof: Reset is proved to install fresh clones of the base world and base symbol table (same facts, rules, limits, symbols) with empty check and policy lists; Authorize, Query, AddFact, AddRule, AddCheck, AddPolicy are proved (strict write frames) never to write the base world, the base symbol table or their visible contents; the authorizer invariant (working state separate from base state and from the token's own arrays) is proved to be established by the constructors and preserved by every method under contract.",
-   note="Not yet under contract: LoadPolicies, SerializePolicies, PrintWorld, AddBlock/AddAuthorizer wrappers. 'behaves exactly like a new authorizer' is decided as state equality of what Reset installs with what the constructor installs (both are clones of the same base state), not as a relational statement over runs.",
+   note="LoadPolicies/loadPoliciesV2, SerializePolicies and PrintWorld are under contract and proved not to write the base snapshot. The AddBlock/AddAuthorizer convenience wrappers are under contract too (they keep the authorizer invariant and the base snapshot). 'behaves exactly like a new authorizer' is decided as state equality of what Reset installs with what the constructor installs (both are clones of the same base state), not as a relational statement over runs.",
    technique=T, ref="4/C13"),
  "C14": dict(
-   text="Proof (partial) for the conversion layer between participle's syntax tree and the values the library works with: Term.ToBiscuit row by row (integer, string, variable, bool, set without variables, parameter substituted or 'unbound parameter' error, value or error never both), the operator spelling table (text of the operator token -> operator constant, 19 rows proved from the map literal, which is checked to be a constant table), the operator table at each precedence level (every level appends exactly its own operators: || ; && ; comparisons ; + - ; * / ; methods), negation and parentheses appended after their operand (postfix order of each node), 'or' as alternative queries (one rule per alternative), allow/deny kinds, 'query' heads, facts without variables, every flattened expression checked for unconverted operands (the repaired defect), and panic freedom of all 35 functions of the layer and of the six entry points.",
+   text="Proof (partial) for the conversion layer between participle's syntax tree and the values the library works with: Term.ToBiscuit row by row (integer, string, variable, bool, set without variables, parameter substituted or 'unbound parameter' error, value or error never both), the operator spelling table (text of the operator token -> operator constant, 19 rows proved from the map literal, which is checked to be a constant table), the operator table at each precedence level (every level appends exactly its own operators: || ; && ; comparisons ; + - ; * / ; methods), negation and parentheses appended after their operand (postfix order of each node), 'or' as alternative queries (one rule per alternative), allow/deny kinds, 'query' heads, facts without variables, every flattened expression checked for unconverted operands (the repaired defect), and panic freedom of all functions of the layer, of participle's capture hooks (Comment, Variable, Parameter, Bool, Operator) and of the twelve entry points (with and without parameters).",
    note="Assumed, not proved: participle itself - lexing (including the token table of regular expressions handed to it; the thorough tier cross-checks a corpus of spellings and layouts on the real parser), the grammar's precedence and associativity as encoded in the struct tags, and the shape of the tree it returns (required captures and elements of repeated captures are non-nil: 'assumes' clauses and the extern contract of ParseString). So 'denotes exactly the documented grammar' is decided only from the tree downwards; the postfix order of a whole expression is decided per node (each node appends its operands' output then its own operator), not as one statement over the flattened sequence.",
    technique=T, ref="4/C14"),
  "C16": dict(
@@ -71,7 +71,7 @@ CLAIMED = {
    technique=T, ref="4/C19"),
  "C20": dict(
    text="Proof: with ed25519.GenerateKey's contract (error => nil keys; success => 32/64-byte keys with pub = pubOf(priv)), newBiscuit and Append are proved to return no token on error, never to reach Seed()/slicing with a nil key (panic obligations), and to store the seed whose public key they announce and sign.",
-   note="Assumed: GenerateKey fails exactly when the reader it is given does not deliver 32 bytes (ghost predicate entropyOK(reader); Go 1.23 behaviour; the 'every k < 32' quantifier lives inside that assumed contract). With it, Append, newBiscuit (through WithRNG) and New are proved to report the failure of the reader the caller supplied - i.e. they are proved to use that reader. Not decided: the same through the token Builder, which wraps the reader in an option value (an equality between the wrapper's and the wrapped reader's entropy is not expressible without modelling io.Reader).",
+   note="Assumed: GenerateKey fails exactly when the reader it is given does not deliver 32 bytes (ghost predicate entropyOK(reader); Go 1.23 behaviour; the 'every k < 32' quantifier lives inside that assumed contract). With it, Append, newBiscuit (through WithRNG) and New are proved to report the failure of the reader the caller supplied - i.e. they are proved to use that reader. The token Builder hands the reader on wrapped in the option value WithRNG returned; that wrapper embeds the reader, so its Read is the embedded reader's (Go method promotion) - this one fact is an axiom (rng_option_delegates, listed in the evidence). With it NewBuilder is proved to draw from the last WithRNG source among its options, Builder.Build to report that source's failure and to return no token, and newBiscuit to use the last rng option wherever it stands in the option list.",
    technique=T, ref="4/C20"),
 }
 
